@@ -613,6 +613,11 @@ func convertSlice(destTyp reflect.Type, v reflect.Value, path []uintptr) (reflec
 
 func findField(name string, typ reflect.Type) (int, error) {
 	for i := 0; i < typ.NumField(); i++ {
+		if typ.Field(i).PkgPath != "" {
+			// an unexported field cannot be set: it is no counterpart of a wire field, and it must not hide an
+			// exported field of the same name up to the first letter (name / Name)
+			continue
+		}
 		str := typ.Field(i).Name
 		if strings.Compare(str, name) == 0 {
 			return i, nil
